@@ -42,9 +42,21 @@ class _FalsyCallable:
         return 0
 
 
-def name_in_repr(name, rep):
-    """The same name in the representation the scenario asks for."""
+def name_in_repr(name, rep, bufs=None):
+    """The same name in the representation the scenario asks for. Caller-owned mutable buffers behind the representation
+    are appended to `bufs` (the caller of the library may re-use them once the call has returned)."""
     comps = comps_of(name)
+    if rep == 'ro_mv_ba':
+        # read-only views over buffers the caller owns: read-only is not immutable
+        bs = [bytearray(c) for c in comps]
+        if bufs is not None:
+            bufs.extend(bs)
+        return [memoryview(b).toreadonly() for b in bs]
+    if rep == 'wire_ro_mv_ba':
+        b = bytearray(tlvref.name_tlv(comps))
+        if bufs is not None:
+            bufs.append(b)
+        return memoryview(b).toreadonly()
     if rep == 'uri':
         return '/' + '/'.join(_real_uri_part(s_) for s_ in name)
     if rep == 'strlist':
@@ -789,7 +801,8 @@ class PipeWorld(World):
     def op_attach(self, op):
         hid = op['hid']
         self.handlers[hid] = op
-        name = name_in_repr(op['prefix'], op.get('repr', 'uri'))
+        caller_bufs = []
+        name = name_in_repr(op['prefix'], op.get('repr', 'uri'), caller_bufs)
         validator = self.make_validator(op.get('validator'), ('route', hid))
         world = self
         reply_specs = op.get('replies', [])
@@ -825,6 +838,7 @@ class PipeWorld(World):
             elif op.get('via') == 'register' and self.cfg.get('nfd') and key not in self.rt_attached and self.face.running:
                 # legacy front-end: register() installs the filter (first thing it does) and then sends the command
                 self.spawn(self._v1_register(name, handler, validator))
+                caller_bufs = []        # register() has not run yet: the caller still needs its buffers
             else:
                 self.app.set_interest_filter(name, handler, validator)
             self.rt_attached.add(key)
@@ -834,6 +848,10 @@ class PipeWorld(World):
         except Exception as e:
             self.log('attach', hid=hid, prefix=comps_of(op['prefix']), ok=False, exc=type(e).__name__,
                      where=innermost_ndn_frame(e))
+        for b in caller_bufs:
+            # the caller re-uses its buffers once the call has returned
+            b[:] = b'\x5a' * len(b)
+            self.stats['fault.caller_reuses_prefix_buffer'] += 1
         self.tok(f'A{hid}')
 
     def _do_reply(self, hid, nonce, k, reply, dwire):
